@@ -775,7 +775,22 @@ func pidOfSpec(p *pktSpec) int {
 
 func runRewind(sc *streamScenario, rec *recorder) {
 	bs := buildStream(sc.Units, sc.Pkts, sc.PMTPIDs, sc.Seed, sc.Complete)
-	rec.ev(M{"ev": "reset", "t": sc.SID, "kind": "rewind", "npkts": len(bs.pkts), "psize": sc.Run.PSize})
+	runRewindOn(sc, sc.SID, bs, rec)
+	if sc.Run.PSize == -1 && len(bs.pkts) >= 2 {
+		// the same stream behind 193 bytes that are no packet: under auto-detection the first attempt of a fresh Demuxer fails (and consumes
+		// its window), the second one succeeds and seeks back to offset 0, from where nothing is aligned any more - errors to the end.
+		// A rewound Demuxer has to go through exactly the same (nothing is ever delivered, so the program map cannot matter)
+		junk := make([]byte, 193)
+		for i := range junk {
+			junk[i] = byte(0x10 + i%0x30)
+		}
+		bs.bytes = append(junk, bs.bytes...)
+		runRewindOn(sc, sc.SID+"/junk193", bs, rec)
+	}
+}
+
+func runRewindOn(sc *streamScenario, sid string, bs *builtStream, rec *recorder) {
+	rec.ev(M{"ev": "reset", "t": sid, "kind": "rewind", "npkts": len(bs.pkts), "psize": sc.Run.PSize})
 	unitEvents(bs, rec)
 	bound := len(bs.pkts) + len(bs.units)*4 + 10
 	rg := newRng(sc.Seed ^ 0x4242)
